@@ -270,7 +270,7 @@ class Runner:
             'property_id': self.pid, 'tier': self.tier, 'seed': self.seed, 'level': self.level,
             'coverage': cov, 'assumptions': self.assumptions, 'wall_s': wall, 'violations': len(self.violations),
         }
-        d = os.path.join(VERIF, 'evidence')
+        d = os.environ.get('VERIF_EVIDENCE_DIR') or os.path.join(VERIF, 'evidence')      # (the override is for mutant sweeps only)
         os.makedirs(d, exist_ok=True)
         tmp = os.path.join(d, '.%s.json.tmp' % self.pid)
         with open(tmp, 'w') as f:
